@@ -91,13 +91,14 @@ def build(ck):
 
 def _inject2d(ck, N, k):
     for nm, mk in [
-        ("nonlin_fun", lambda L, g: NF.VorticityConvection2dKolmogorov(2, N, injection_mode=k, injection_scale=g, derivative_operator=_do(L, 2, N), dealiasing_fraction=2 / 3)),
-        ("KolmogorovFlowVorticity", lambda L, g: ex.stepper.KolmogorovFlowVorticity(2, L, N, 0.1, injection_mode=k, injection_scale=g)._integrator._nonlinear_fun),
-        ("GeneralVorticityConvectionStepper", lambda L, g: ex.stepper.generic.GeneralVorticityConvectionStepper(2, L, N, 0.1, injection_mode=k, injection_scale=1.5)._integrator._nonlinear_fun),
+        # the convection scale b is symbolic too: the documented forcing does not depend on it
+        ("nonlin_fun", lambda L, g, b: NF.VorticityConvection2dKolmogorov(2, N, convection_scale=b, injection_mode=k, injection_scale=g, derivative_operator=_do(L, 2, N), dealiasing_fraction=2 / 3)),
+        ("KolmogorovFlowVorticity", lambda L, g, b: ex.stepper.KolmogorovFlowVorticity(2, L, N, 0.1, convection_scale=b, injection_mode=k, injection_scale=g)._integrator._nonlinear_fun),
+        ("GeneralVorticityConvectionStepper", lambda L, g, b: ex.stepper.generic.GeneralVorticityConvectionStepper(2, L, N, 0.1, vorticity_convection_scale=b, injection_mode=k, injection_scale=1.5)._integrator._nonlinear_fun),
     ]:
         tag = f"inject2d/N{N}/k{k}/{nm}"
-        ins = [In("L", (), lo=0.5, hi=3.0), In("g", (), lo=0.5, hi=2.0)]
-        enc = Encoded(lambda L, g, mk=mk: ex.ifft(mk(L, g)(jnp.zeros((1, N, N // 2 + 1), jnp.complex128)), num_spatial_dims=2, num_points=N), ins, tag="i2")
+        ins = [In("L", (), lo=0.5, hi=3.0), In("g", (), lo=0.5, hi=2.0), In("b", (), lo=-2.0, hi=2.0)]
+        enc = Encoded(lambda L, g, b, mk=mk: ex.ifft(mk(L, g, b)(jnp.zeros((1, N, N // 2 + 1), jnp.complex128)), num_spatial_dims=2, num_points=N), ins, tag="i2")
         enc.validate(ck, what=tag, max_components=6)
         L, g = ins[0].s, ins[1].s
         gam = g if nm != "GeneralVorticityConvectionStepper" else orc.fl(Fraction(3, 2))
